@@ -1034,17 +1034,17 @@ def stage_survive(ctx):
     jobs, metas = [], []
     pts_dist = 8.0
 
-    def add(sp, cls, pts=None, sph=None):
+    def add(sp, cls, pts=None, sph=None, lens=False):
         sp = dict(sp)
         if sph is None:
             sp["center"] = [0.0, 0.0, pts_dist]
-            jobs.append(dict(kind="field", scat=sp, points=pts or cart_points(rng, 3, pts_dist), theories=["tmatrix"],
-                             nmed=NMED, wavelen=WAVELEN))
+            jobs.append(dict(kind="field", scat=sp, points=pts or cart_points(rng, 3, pts_dist),
+                             theories=["lens:0.8:tmatrix" if lens else "tmatrix"], nmed=NMED, wavelen=WAVELEN))
         else:
             sp["center"] = [0.0, 0.0, 0.0]
             jobs.append(dict(kind="smat", scat=sp, theta=sph[0], phi=sph[1], theories=["tmatrix"], nmed=NMED,
                              wavelen=WAVELEN))
-        metas.append(dict(cls=cls, scat=sp, sph=sph))
+        metas.append(dict(cls=cls, scat=sp, sph=sph, route="lens" if lens else ("scat-matrix" if sph is not None else "field")))
 
     # Euler angles: fixed witnesses first, then random
     fixed = [[0.0, -0.3, 0.0], [0.0, 4.0, 0.0], [0.0, 0.3, -0.2], [0.0, 0.3, 7.0], [1.0, -3.5, -9.0],
@@ -1091,6 +1091,10 @@ def stage_survive(ctx):
                    dict(kind="spheroid", n=[1.5, 0.0], r=[s / 2, s], rotation=[0, 0.4, 0.3]),
                    dict(kind="cylinder", n=[1.5, 0.0], d=s, h=s / 2, rotation=[0, 0.4, 0.3])):
             add(sp, "size-underflow")
+            # the same particle through the other public routes to the solver: calc_scat_matrix and the lens wrapper
+            add(sp, "size-underflow", sph=([0.5, 1.0], [1.0, 2.0]))
+            if e in (30, 35):
+                add(sp, "size-underflow", lens=True)
     # extreme aspect ratios (one size ordinary, the other near the ends of the double range): the solver forms eps**2 and
     # 1/eps**2
     for e in (100, 150, 155, 160, 165, 200, 300):
@@ -1142,8 +1146,8 @@ def stage_survive(ctx):
                           % (r.get("rc"), m["cls"], json.dumps({k: v for k, v in m["scat"].items() if k != "center"})),
                           dict(kind="explore-survive", **m, result=r))
         elif oc == "returned":
-            if not all_finite(r["ok"]["tmatrix"]):
-                ctx.violation("nonfinite:" + m["cls"], "T-matrix calculation returned non-finite values (%s)" % m["cls"],
+            if not all_finite(list(r["ok"].values())[0]):
+                ctx.violation("nonfinite:" + m["cls"], "T-matrix calculation returned non-finite values (%s, through %s)" % (m["cls"], m["route"]),
                               dict(kind="explore-survive", **m))
             elif m["cls"] in ("euler-in-range", "euler-angle-guard", "detector-ok"):
                 pass
@@ -1244,11 +1248,15 @@ def replay(ctx, data):
         if d.get("sph"):
             job = dict(kind="smat", scat=sp, theta=d["sph"][0], phi=d["sph"][1], theories=["tmatrix"], nmed=NMED, wavelen=WAVELEN)
         else:
-            job = dict(kind="field", scat=sp, points=[[1.0, 2.0, 0.0]], theories=["tmatrix"], nmed=NMED, wavelen=WAVELEN)
+            job = dict(kind="field", scat=sp, points=[[1.0, 2.0, 0.0]],
+                       theories=["lens:0.8:tmatrix" if d.get("route") == "lens" else "tmatrix"], nmed=NMED, wavelen=WAVELEN)
         r = run_jobs("replay", [job], nproc=1)[0]
         ctx.explored += 1
         print("replay: outcome =", outcome(r), r.get("msg", ""))
         if outcome(r) == "died":
+            ctx.violation(data["key"], data["what"], d)
+        elif outcome(r) == "returned" and not all_finite(list(r["ok"].values())[0]):
+            print("replay: the call returned non-finite values")
             ctx.violation(data["key"], data["what"], d)
     elif kind == "siblings":
         i = d["request"]
